@@ -46,6 +46,15 @@ func genHSStall(t *rapid.T) HSPath {
 	}
 	c.Stall = rapid.SampledFrom(stages).Draw(t, "stall")
 	c.OnlyK = -1
+	switch rapid.IntRange(0, 5).Draw(t, "slow_setup") {
+	case 0:
+		// the dial function hands over its connection only after the limit has
+		// passed: the library owns that connection and must close it
+		c.DialDelayMs = rapid.SampledFrom([]int{60000, 100000}).Draw(t, "dial_delay")
+	case 1:
+		// the Proxy callback eats part of the budget
+		c.ProxyDelayMs = rapid.SampledFrom([]int{20, 300}).Draw(t, "proxy_delay")
+	}
 	return c
 }
 
@@ -71,7 +80,15 @@ func checkC16Stall(c HSPath, o *Obs) error {
 			result = fmt.Errorf("%s, peer silent at %q: Dial returned conn=%v err=%v", c.Path, c.Stall, r.conn != nil, r.err)
 			return
 		}
-		if elapsed > limit {
+		// callbacks that cannot be interrupted extend the bound to their own duration
+		bound := limit
+		for _, d := range []int{c.DialDelayMs, c.ProxyDelayMs} {
+			if dd := time.Duration(d) * time.Millisecond; dd > bound {
+				bound = dd
+			}
+		}
+		if elapsed > bound {
+			limit = bound
 			result = fmt.Errorf("%s, peer silent at stage %q: Dial gave up after %v, later than the configured limit %v", c.Path, c.Stall, elapsed, limit)
 			return
 		}
@@ -93,6 +110,8 @@ func checkC16Stall(c HSPath, o *Obs) error {
 	if result != nil {
 		return result
 	}
+	o.ClassIf(c.DialDelayMs > 0, "dial_function_slower_than_the_limit")
+	o.ClassIf(c.ProxyDelayMs > 0, "slow_proxy_callback")
 	o.Class("stall_" + c.Stall)
 	o.Class("path_" + c.Path)
 	o.NonTrivial("")
